@@ -67,6 +67,25 @@ impl DispatcherDriver {
         }
     }
 
+    /// `run_once` parked in its `select!`: first poll (nothing may be ready), then `inject`
+    /// makes other tasks' events happen, then the same future is polled again.
+    pub fn poll_run_once_parked(
+        &mut self,
+        cx: &mut Context<'_>,
+        inject: impl FnOnce(&mut Context<'_>),
+    ) -> Option<crate::Result<()>> {
+        let d = self.dispatcher.as_mut().unwrap();
+        let mut fut = Box::pin(d.run_once(&mut self.read_buf[..]));
+        if let Poll::Ready(r) = fut.as_mut().poll(cx) {
+            return Some(r);
+        }
+        inject(cx);
+        match fut.as_mut().poll(cx) {
+            Poll::Ready(r) => Some(r),
+            Poll::Pending => None,
+        }
+    }
+
     pub fn accept_future(&self) -> BoxedStreamFuture {
         let s = self.socket.clone();
         Box::pin(async move { s.accept().await })
